@@ -10,11 +10,13 @@ use proptest::prelude::*;
 use std::collections::BTreeMap;
 
 #[derive(Clone, Debug)]
-pub struct LayoutCase { pub base: LedgerCase, pub files: Vec<(String, String)>, pub costs: bool, pub tags: Vec<String> }
+pub struct LayoutCase { pub base: LedgerCase, pub files: Vec<(String, String)>, pub costs: bool, pub tags: Vec<String>,
+    /// the re-layout also moved trade dates (settlement dates and positions kept) of rows whose conversion does not depend on the trade date
+    pub retimed: bool }
 
 impl LayoutCase {
-    fn to_json(&self) -> JsonValue { let mut j = self.base.to_json(); j["files"] = files_json(&self.files); j["costs"] = self.costs.into(); j }
-    fn from_json(v: &JsonValue) -> Option<LayoutCase> { Some(LayoutCase { base: LedgerCase::from_json(v)?, files: files_from_json(&v["files"])?, costs: v["costs"].as_bool().unwrap_or(false), tags: vec![] }) }
+    fn to_json(&self) -> JsonValue { let mut j = self.base.to_json(); j["files"] = files_json(&self.files); j["costs"] = self.costs.into(); j["retimed"] = self.retimed.into(); j }
+    fn from_json(v: &JsonValue) -> Option<LayoutCase> { Some(LayoutCase { base: LedgerCase::from_json(v)?, files: files_from_json(&v["files"])?, costs: v["costs"].as_bool().unwrap_or(false), tags: vec![], retimed: v["retimed"].as_bool().unwrap_or(false) }) }
 }
 
 /// Admissible permutation: any order that keeps the relative order of rows of one security settling on one date.
@@ -78,8 +80,20 @@ fn strategy(tier: Tier) -> BoxedStrategy<LayoutCase> {
     let mut long = p.clone(); long.max_rows = 40;
     (prop_oneof![4 => ledger_strategy(p, 1), 1 => ledger_strategy(long, 21)], proptest::collection::vec(any::<u16>(), 64), any::<bool>()).prop_map(|(base, seeds, costs)| {
         let mut tags = vec![];
-        let files = relayout(&base.rows, &seeds, &mut tags);
-        LayoutCase { base, files, costs, tags }
+        // ties between rows settling on one day are broken by position in the input - not by trade date: in a third of the cases the
+        // re-layout also moves the trade dates of rows whose figures cannot depend on it (no Bank-of-Canada look-up on that row, not a split)
+        let retimed = seeds[63] % 3 == 0;
+        let mut rows = base.rows.clone();
+        if retimed {
+            for (i, r) in rows.iter_mut().enumerate() {
+                let looks_up = (r.cur.trim().eq_ignore_ascii_case("USD") && r.rate.trim().is_empty()) || (r.ccur.trim().eq_ignore_ascii_case("USD") && r.crate_.trim().is_empty());
+                if r.act == crate::model::Act::Split || looks_up { continue; }
+                r.td = r.sd - time::Duration::days(((seeds[(i * 3 + 7) % seeds.len()] >> 3) % 4) as i64);
+            }
+            tags.push("trade-dates-moved".into());
+        }
+        let files = relayout(&rows, &seeds, &mut tags);
+        LayoutCase { base, files, costs, tags, retimed }
     }).boxed()
 }
 
@@ -89,7 +103,11 @@ fn check(c: &LayoutCase, obs: &mut Obs) -> Verdict {
     let a = match run_render(&base_files, &opts, true, c.costs) { Ok(r) => r, Err(RunErr::Panic(p)) => return classify_panic(&p, &base_files[0].1), Err(RunErr::Run(e)) => return Verdict::Skip(format!("base-run-error:{}", e.split_whitespace().take(3).collect::<Vec<_>>().join("_"))), Err(RunErr::BadInit(e)) => return Verdict::Fail(e) };
     let all: String = c.files.iter().map(|(n, t)| format!("--- {n}\n{t}")).collect();
     let b = match run_render(&c.files, &opts, true, c.costs) { Ok(r) => r, Err(RunErr::Panic(p)) => return classify_panic(&p, &all), Err(RunErr::Run(e)) => return Verdict::Fail(format!("re-laid-out input fails as a whole ({e}) while the base input runs\nBASE\n{}\nRELAYOUT\n{all}", base_files[0].1)), Err(RunErr::BadInit(e)) => return Verdict::Fail(e) };
-    let (sa, sb) = (Snap::of(&a.res).normalized(), Snap::of(&b.res).normalized());
+    let (mut sa, mut sb) = (Snap::of(&a.res).normalized(), Snap::of(&b.res).normalized());
+    if c.retimed { for s in [&mut sa, &mut sb] { for t in s.secs.values_mut() { if let Some(ix) = t.header.iter().position(|h| h.to_lowercase().contains("trade")) { for r in t.rows.iter_mut() { r[ix].clear(); } }
+        // messages name a transaction by its trade date
+        let mask = |x: &mut String| { let re = regex::Regex::new(r"\d{4}-\d{2}-\d{2}").unwrap(); *x = re.replace_all(x, "<date>").to_string(); };
+        for e in t.errors.iter_mut() { mask(e); } for n in t.notes.iter_mut() { mask(n); } } } }
     if let Some(d) = sa.diff(&sb) { return Verdict::Fail(format!("figures differ between base and re-laid-out input: {d}\nopening={:?}\nBASE\n{}\nRELAYOUT\n{all}", c.base.opening, base_files[0].1)); }
     let nfiles = c.files.len();
     let permuted_cols = c.tags.iter().any(|t| t == "columns-permuted");
@@ -105,7 +123,7 @@ fn check(c: &LayoutCase, obs: &mut Obs) -> Verdict {
 }
 
 pub fn def() -> PropDef {
-    let mut d = PropDef::new("C07", "a generated input (ledger generator, one file, canonical columns) and a generated re-layout of the same rows: 1-5 files in order, per-file column permutation, header case/padding variants, 0-3 unrecognised columns (named, or with an empty / blank header cell) with junk cells (including cells starting with '#'), memos starting with '#', '=' or a quote, optional columns absent when empty, legacy 'date' header, padded cells, CRLF line ends, and a random row permutation constrained to keep the relative order of rows of one security settling on one date. Every cell of every security table, footer, aggregate table and (in half the cases) the total-costs tables must be identical in full precision; notes compared as multisets. Non-trivial = >= 2 files AND permuted columns AND at least one pair of same-security same-day rows. Distinct = distinct case content.");
+    let mut d = PropDef::new("C07", "a generated input (ledger generator, one file, canonical columns) and a generated re-layout of the same rows: 1-5 files in order, per-file column permutation, header case/padding variants, 0-3 unrecognised columns (named, or with an empty / blank header cell) with junk cells (including cells starting with '#'), memos starting with '#', '=' or a quote, optional columns absent when empty, legacy 'date' header, padded cells, CRLF line ends, and a random row permutation constrained to keep the relative order of rows of one security settling on one date; in a third of the cases the trade dates of rows without a rate look-up are moved as well (only the trade-date column may change). Every cell of every security table, footer, aggregate table and (in half the cases) the total-costs tables must be identical in full precision; notes compared as multisets. Non-trivial = >= 2 files AND permuted columns AND at least one pair of same-security same-day rows. Distinct = distinct case content.");
     d.assumptions = vec!["the order of notes is C09's business and ignored here"];
     d.subs.push(Box::new(Sub::<LayoutCase> { name: "relayout", cases_quick: 50_000, cases_thorough: 800_000, strategy: Box::new(strategy), to_json: LayoutCase::to_json, from_json: LayoutCase::from_json, check }));
     d
